@@ -2,7 +2,8 @@
 Lean: Wire/Truncated.lean models a stream that ends early (short read copies the bytes that exist, then the stream is failed for
 good); Props/C16.lean proves that a field read across the cut never exceeds the value of the whole file, that later fields keep
 their defaults, and that a count-prefixed array read from a prefix allocates no more than the whole file does.
-D: truncation sweep under ASan/UBSan: prefixes of every sample file (every byte of the first 400 and last 64, strided in between;
+D: (a) correspondence: the model's reads against NiIStream on random byte strings, cut points and field widths; (b) truncation
+   sweep under ASan/UBSan: prefixes of every sample file (every byte of the first 400 and last 64, strided in between;
    thorough: every byte of files below 64 KB) and of generated instances of every block type; each prefix is loaded, the result
    queried (battery), saved, copied and destroyed."""
 import json
@@ -61,6 +62,22 @@ def run(ctx):
             bad.append((label, f"c16.run {src} {cut}",
                         f"prefix of {cut} bytes (of {kv['size']}): {'hang' if what == 'hang' else 'memory error / UB / fault (' + what + ')'}; "
                         f"{len(kv['bad'].split(';'))} failing cut points in this sweep"))
+    # correspondence: the truncated-stream model against NiIStream on random byte strings, cut points and field widths
+    corr, rl = [], []
+    if not ctx.replay and ctx.driver:
+        for _ in range(2000 if ctx.tier == "quick" else 20000):
+            n = rng.randrange(0, 14)
+            b = bytes(rng.randrange(0, 256) for _ in range(n))
+            ws = [rng.choice([1, 2, 4, 8]) for _ in range(rng.randrange(1, 5))]
+            rl.append(f"c16.read {b.hex() or '-'} {rng.randrange(0, n + 1)} {','.join(map(str, ws))}")
+        impl = C.run_lines_parallel(ctx.harness, rl)
+        model = C.run_lines_parallel(ctx.driver, rl)
+        for l, i, m in zip(rl, impl, model):
+            if i != m:
+                corr.append((l, i, m))
+        for j, (l, i, m) in enumerate(corr[:2]):
+            res.violation(f"correspondence-{j}", dict(what=f"short-read model disagrees with NiIStream: library [{i}], model [{m}]", line=l,
+                                                       broken="correspondence Wire/Truncated.lean rdInto vs NiIStream::read"), no_input=True)
     ctx.allbad = bad
     for j, (label, line, why) in enumerate(sorted(bad, key=lambda b: len(b[1]))[:4]):
         res.violation(f"oracle-{j}", dict(what=why, label=label, line=line))
@@ -70,5 +87,5 @@ def run(ctx):
              "64 KB, stride size/20000 above) and of generated instances of every block type × 2 (quick) / 12 versions (quick: stride 3..7, "
              "thorough: every byte); per prefix: Load, query battery, raw Save, copy, destruction in one sanitised process that reports the "
              "cut point before starting it",
-        files=len(lines), skipped=skipped, oracle_failures=len(bad),
+        files=len(lines), skipped=skipped, oracle_failures=len(bad), short_read_cases=len(rl), short_read_mismatches=len(corr),
         samples=[f"{l} -> {o[:120]}" for l, o in list(zip(lines, out))[:: max(1, len(lines) // 5)]][:5])
